@@ -1,6 +1,6 @@
 #!/bin/bash
 # run EVERY quick check against each behaviour-preserving change under <dir>/*/patch.diff (no alarm is the expected
-# outcome): parallel, each worker from a private copy of the verification tree.  usage: tools/benign.sh <dir> [workers]
+# outcome): parallel, each worker from a private copy of the verification tree.  usage: [CHECKS="C05 C09"] tools/benign.sh <dir> [workers]
 SRC=${1:-/verif/benign}; N=${2:-8}
 ls -d $SRC/*/ > /tmp/benlist.$$
 for i in $(seq 0 $((N-1))); do
@@ -8,7 +8,7 @@ for i in $(seq 0 $((N-1))); do
     V=/tmp/vb-$$-$i; rm -rf $V; rsync -a --exclude .git /verif/ $V/
     awk -v n=$N -v i=$i 'NR % n == i' /tmp/benlist.$$ | while read d; do
       n=$(basename $d)
-      out=$(VROOT=$V NOSUITE=1 timeout 3000 /verif/tools/try_seed.sh $d "C01 C02 C03 C04 C05 C06 C07 C08 C09 C10 C11 C12 C13 C14 C15 C16 C17 C18 C19 C20" 2>&1 | grep -v "KNOWN-FINDING")
+      out=$(VROOT=$V NOSUITE=1 timeout 3000 /verif/tools/try_seed.sh $d "${CHECKS:-C01 C02 C03 C04 C05 C06 C07 C08 C09 C10 C11 C12 C13 C14 C15 C16 C17 C18 C19 C20}" 2>&1 | grep -v "KNOWN-FINDING")
       bad=$(echo "$out" | grep -c "^VIOLATION\|internal error\|patch does not apply")
       echo "$n alarms=$bad"
       echo "$out" | grep "^VIOLATION\|internal error\|patch does not apply\|violations=[1-9]" | sed "s/^/   $n: /" | head -20
